@@ -44,18 +44,17 @@ func fetchKeys(iterator func(string) ([]string, string, error), keyBatchChan cha
 			return
 		}
 
-		if len(ks) == 0 {
-			break
-		}
-
-		select {
-		case keyBatchChan <- keyBatchEvent{keys: ks}:
-		case <-doneChan:
+		// a page may come back empty with more pages to follow (e.g. when the iterator filters keys)
+		if len(ks) > 0 {
 			select {
-			case keyBatchChan <- keyBatchEvent{err: status.ErrInterrupted}:
-			default:
+			case keyBatchChan <- keyBatchEvent{keys: ks}:
+			case <-doneChan:
+				select {
+				case keyBatchChan <- keyBatchEvent{err: status.ErrInterrupted}:
+				default:
+				}
+				return
 			}
-			return
 		}
 
 		if next == "" {
